@@ -179,6 +179,20 @@ def _canon_param(p):
     return {"t": "param", "r": scrub(str(p))}
 
 
+_AUTO_REG = re.compile(r"^(meas|c|q|ancilla|cr|qr)(_auto)?(\d+)$")
+
+
+def _norm_regs(regs):
+    """Register names that qiskit generated from its process-wide instance counter (`meas0`, `c3`, `q7`:
+    e.g. measure_all() on a circuit that already has a `meas` register) are identity artefacts exactly like
+    QuantumCircuit.name: they are replaced by position-based placeholders."""
+    out = []
+    for pos, r in enumerate(regs):
+        m = _AUTO_REG.match(r.name)
+        out.append([f"{m.group(1)}_auto{pos}" if m else r.name, r.size])
+    return out
+
+
 def _canon_qc(qc, depth):
     ops = []
     find = qc.find_bit
@@ -190,8 +204,8 @@ def _canon_qc(qc, depth):
                     [find(c).index for c in inst.clbits]])
     return {"t": "qc",
             "nq": qc.num_qubits, "nc": qc.num_clbits,
-            "qregs": [[r.name, r.size] for r in qc.qregs],
-            "cregs": [[r.name, r.size] for r in qc.cregs],
+            "qregs": _norm_regs(qc.qregs),
+            "cregs": _norm_regs(qc.cregs),
             "gp": _canon_param(qc.global_phase),
             "ops": ops,
             "md": canon(qc.metadata, depth + 1)}
